@@ -8,6 +8,10 @@ prop, patch, demo = sys.argv[1:4]
 tier = sys.argv[5] if len(sys.argv) > 5 and sys.argv[4] == "--tier" else "quick"
 wt = tempfile.mkdtemp(prefix="seed_wt_", dir="/tmp")
 os.rmdir(wt)
+HERE = os.path.dirname(os.path.dirname(os.path.abspath(__file__)))
+# the checks run in a private copy of this directory (its own coq/build, coq/Gen and evidence), so that a seed run
+# neither disturbs the main tree nor other seed runs; removed afterwards
+priv = tempfile.mkdtemp(prefix="seed_verif_", dir="/tmp")
 res = {"property": prop, "patch": patch}
 def run(cmd, **kw):
     p = subprocess.run(cmd, shell=isinstance(cmd, str), stdout=subprocess.PIPE, stderr=subprocess.STDOUT, text=True, **kw)
@@ -22,11 +26,12 @@ try:
     if rc:
         res["apply_error"] = out[-500:]
     else:
-        rc, out = run(["/venv/bin/python", "/verif/harness/baseline.py"], env=dict(os.environ, VERIF_REPO=wt))
+        run(["rsync", "-a", "--exclude", ".git", "--exclude", "replays", HERE + "/", priv + "/"])
+        rc, out = run(["/venv/bin/python", priv + "/harness/baseline.py"], env=dict(os.environ, VERIF_REPO=wt))
         res["baseline_ok"] = (rc == 0); res["baseline"] = out.strip().splitlines()[-1:]
         rc, out = run(["/venv/bin/python", demo], env=env, cwd=wt)
         res["demo_changed_exit"] = rc; res["demo_output"] = out[-400:]
-        rc, out = run(["/verif/check", prop, "--tier", tier], env=dict(os.environ, VERIF_REPO=wt), cwd="/verif")
+        rc, out = run([priv + "/check", prop, "--tier", tier], env=dict(os.environ, VERIF_REPO=wt), cwd=priv)
         res["check_exit"] = rc
         res["check_lines"] = [l[:300] for l in out.splitlines() if l.startswith("VIOLATION") or l.startswith(prop)][:6]
         # keep the first replay
@@ -41,8 +46,7 @@ try:
 finally:
     run(["git", "-C", "/repo", "worktree", "remove", "--force", wt])
     shutil.rmtree(wt, ignore_errors=True)
-    # put the generated parameters back to /repo's
-    run(["/venv/bin/python", "/verif/harness/translate.py", "/repo/src"])
+    shutil.rmtree(priv, ignore_errors=True)
 res["caught"] = bool(res.get("check_exit") == 1 and res.get("check_lines"))
 def clip(x, n=1500):
     if isinstance(x, str):
